@@ -336,6 +336,7 @@ type cliOut struct {
 	UpdateErrors []string            `json:"update_errors"`
 	File         string              `json:"file"`
 	Reloaded     map[string]string   `json:"reloaded"`
+	ReloadReset  bool                `json:"reload_reset"`
 	LoadError    string              `json:"load_error"`
 }
 
@@ -355,7 +356,7 @@ func lookup(doc map[string]any, path string) (any, bool) {
 }
 
 var subCLI = ev.Register("cli-overrides",
-	"a start-up sequence in a child process (load var/config.json, apply a generated set of command-line flags through OverrideFromFlags, then apply 0-3 generated API-style update documents, some addressing the overridden settings); oracle: the effective value of every overridden setting is the flag value before and after every update; the file never contains a flag value (it holds the base or updated value); reloading the file without flags yields the file values and they equal the non-overridden effective values; non-trivial = an override is followed by an update of the same setting; distinct by (flag set, update documents)",
+	"a start-up sequence in a child process (load var/config.json, apply a generated set of command-line flags through OverrideFromFlags, then apply 0-3 generated API-style update documents, some addressing the overridden settings); oracle: the effective value of every overridden setting is the flag value before and after every update; the file never contains a flag value (it holds the base or updated value); reloading the file without flags yields the file values and they equal the non-overridden effective values; a file saved by an accepted update (also one giving an unusable value for an overridden setting) is loaded by the next start-up, not reset; non-trivial = an override is followed by an update of the same setting; distinct by (flag set, update documents)",
 	func(c CLICase, o *ev.Obs) *ev.Failure {
 		bin := filepath.Join(os.Getenv("VERIF_BIN_DIR"), "cfgcli")
 		if _, err := os.Stat(bin); err != nil {
@@ -434,6 +435,20 @@ var subCLI = ev.Register("cli-overrides",
 				return ev.Failf("cli.override-persisted", "after reloading the file without flags %s is still the flag value %q", p, f.Want)
 			}
 		}
+		// whatever was accepted has been saved: the next start must be able to load that file. (A start-up that finds
+		// the file unusable resets it to the defaults - every setting saved with it is gone.)
+		if out.ReloadReset {
+			acc := []string{}
+			for i, e := range out.UpdateErrors {
+				if e == "" {
+					b, _ := json.Marshal(c.Updates[i])
+					acc = append(acc, string(b))
+				}
+			}
+			if len(acc) > 0 {
+				return ev.Failf("cli.accepted-update-unloadable", "flags %v, accepted updates %v: the saved file was refused by the next start-up and reset to the defaults:\n%s", args, acc, clip(out.File, 400))
+			}
+		}
 		// non-overridden settings: reload == last effective
 		if n := len(out.AfterUpdates); n > 0 && out.Reloaded != nil {
 			last := out.AfterUpdates[n-1]
@@ -489,6 +504,14 @@ func TestCLIOverrides(t *testing.T) {
 			if rapid.IntRange(0, 2).Draw(t, "poison") == 0 {
 				bad := rapid.SampledFrom([][2]any{{"cache.lock_shards", 0}, {"cache.lock_shards", -3}, {"cache.memory.memory_budget_percent", 101}, {"cache.max_cache_size", "-1B"}, {"proxy.listen", ""}, {"cache.cleanup_interval", "0s"}}).Draw(t, "bad")
 				if _, isFlag := seenPath(c.Flags, bad[0].(string)); !isFlag {
+					cfgkit.Set(d, bad[0].(string), bad[1])
+				}
+			}
+			// a value that would be refused on its own, given for a setting the command line overrides: the running
+			// process does not use it, but it is what would be saved and loaded next time
+			if rapid.IntRange(0, 3).Draw(t, "hidden-poison") == 0 {
+				bad := rapid.SampledFrom([][2]any{{"proxy.listen", ""}, {"proxy.ca_cert", ""}, {"cache.file.dir", ""}, {"webserver.listen", ""}}).Draw(t, "hidden-bad")
+				if _, isFlag := seenPath(c.Flags, bad[0].(string)); isFlag {
 					cfgkit.Set(d, bad[0].(string), bad[1])
 				}
 			}
